@@ -541,7 +541,7 @@ def shard_main(shard, nshards, tier, scale):
         rec.extra["concurrent_preemption_functions"] = len(info)
     tree = st.sampled_from(D.grouped).flatmap(lambda e: S.avp_spec(D, depth=0, max_depth=4, max_octets=32, entry=e))
     cstrat = st.tuples(st.lists(tree, min_size=2, max_size=3), st.integers(0, 1 << 30), st.sampled_from([0.02, 0.08, 0.3]))
-    hyp.run_given(cstrat, lambda t: check_concurrent(D, t, rec), int((2500 if thorough else 150) * scale) or 5,
+    hyp.run_given(cstrat, lambda t: check_concurrent(D, t, rec), int((1000 if thorough else 150) * scale) or 5,
                   derive_seed(PID, "concurrent", shard), rec=rec)
     from dv import sched as _sched
     _sched.clear()
